@@ -477,7 +477,7 @@ def write_evidence(prop, tier, seed, runs, wall, budget, workers, nviol, known_s
 EXPECTED_PROBES = {
     "C01": ["fame-decided-at-distance-3", "fame-decided-at-distance-5", "coin-round-vote-exact-supermajority", "validator-set-change", "async-gossip", "synthetic-split-vote-template", "dagreplay-variant:delay", "dagreplay-variant:near-early", "dagreplay-variant:near-late", "synthetic-near-miss-history-strong", "synthetic-leave-history", "synthetic-leave-conflict-in-model", "refmodel-cross-checked"],
     "C02": ["validator-set-change", "re-fast-forward", "async-gossip", "late-request-executed", "joiner-spawned"],
-    "C03": ["dagreplay-variant:order", "dagreplay-variant:delay", "dagreplay-variant:subdag", "dagreplay-variant:store", "dagreplay-variant:smallbadger", "dagreplay-variant:batch", "synthetic-dag"],
+    "C03": ["dagreplay-variant:view", "dagreplay-variant:order", "dagreplay-variant:delay", "dagreplay-variant:subdag", "dagreplay-variant:store", "dagreplay-variant:smallbadger", "dagreplay-variant:batch", "synthetic-dag"],
     "C04": ["c04-order-checked"],
     "C05": ["submit-from-commit-callback", "async-gossip", "node-killed"],
     "C06": ["c06-liveness-evaluated", "validator-set-change", "submit-from-commit-callback"],
@@ -489,9 +489,9 @@ EXPECTED_PROBES = {
     "C12": ["ff-refused", "ff-accepted", "ff-attempt-on-previously-adopted-pair", "ff-attempt:sigs-below-threshold-plus-strangers"],
     "C13": ["fastforward-ok", "re-fast-forward", "c13-ff-history-checked"],
     "C14": ["ff-attempt:forged-validator-set"],
-    "C15": ["c15-wire-roundtrip", "c15-block-json", "c15-frame-json", "c15-db-events-reloaded"],
+    "C15": ["c15-wire-roundtrip", "c15-block-json", "c15-frame-json", "c15-db-events-reloaded", "c15-frame-handover"],
     "C16": ["c16-ops-applied", "c16-reopens", "c16-restart-after-kill"],
-    "C17": ["c17-runtime-suspend", "auto-suspended", "c17-suspended-sync-checked"],
+    "C17": ["c17-runtime-suspend", "auto-suspended", "c17-suspended-sync-checked", "c17-leave-then-restart"],
     "C18": ["c18-block-checked", "c18-liar-among-famous-witnesses"],
     "C20": ["c20-commit-checked", "c20-submit-checked", "c20-call-failed-with-error", "c20-block-delivered-more-than-once"],
 }
